@@ -668,5 +668,204 @@ theorem wrap_nodup {I : Inst α} {src t : Nat} {s : SState α} {inner : List (Br
     rw [hbe, hd] at hterm
     exact pathTo_terminal_ne hinv hp b hb hterm.symm
 
+/-! ### the edge-oriented route theorems (forward direction) -/
+
+/-- **`edge_oriented_route_walk`, non-adjacent case, full detail.**  Forward search on a
+configuration with consistent adjacency, origin edge `source = e1`, destination edge `tgt = e2`,
+`source ≠ tgt`, `e1.dst ≠ e2.src`.  A successful `run_edge_oriented` returns exactly one route
+`origin :: inner ++ [dest]` where `inner` is the (non-empty) route of the vertex-oriented search
+`e1.dst ⇝ e2.src`, the inner tree is returned unchanged, iterations are the inner ones + 2;
+`origin` / `dest` carry the origin / destination edge with zero access and traversal cost, `origin`
+the initial state and `dest` the state of the last inner element; consecutive edges chain in graph
+orientation (`dst` of one = `src` of the next) and no edge id occurs twice. -/
+theorem runEdge_nonadjacent_walk (c : Config α) (hadj : c.AdjConsistent) (hfwd : c.reverse = false)
+    (source tgt : Nat) (sched : List Nat) (r : AlgResult α) (e1 e2 : EdgeRec α)
+    (h1 : c.edges[source]? = some e1) (h2 : c.edges[tgt]? = some e2) (hne : source ≠ tgt)
+    (hnadj : e1.dst ≠ e2.src) (h : c.runEdge source (some tgt) sched = .ok r) :
+    ∃ (r' : AlgResult α) (inner : List (Branch α)) (last origin dest : Branch α),
+      c.runVertex e1.dst (some e2.src) sched = .ok r' ∧ r'.routes = [inner] ∧
+      r.trees = r'.trees ∧ r.iterations = r'.iterations + 2 ∧
+      inner.getLast? = some last ∧
+      r.routes = [origin :: inner ++ [dest]] ∧
+      origin.edge = source ∧ origin.terminal = e1.src ∧ origin.access = 0 ∧ origin.traversal = 0 ∧
+      origin.state = initialState c.feats ∧
+      dest.edge = tgt ∧ dest.terminal = e2.src ∧ dest.access = 0 ∧ dest.traversal = 0 ∧
+      dest.state = last.state ∧
+      (origin :: inner ++ [dest]).IsChain (fun a b => c.inst.keyV a.edge = c.inst.termV b.edge) ∧
+      (∀ b ∈ origin :: inner ++ [dest], c.inst.termV b.edge = b.terminal) ∧
+      ((origin :: inner ++ [dest]).map (·.edge)).Nodup := by
+  obtain ⟨res, inner, last, hres, hinner, hlast, htrees, hiters, hroutes⟩ :=
+    runEdge_nonadjacent c source tgt sched r e1 e2 h1 h2 hne hnadj h
+  have hI := c.inst_wf hadj
+  have hts : e2.src ≠ e1.dst := fun h => hnadj h.symm
+  obtain ⟨hinv, _, inner', _, hinner', hnil, hrc, _, _⟩ :=
+    SearchTree.runVertexOriented_route hI e1.dst e2.src sched res hts hres
+  rw [hinner] at hinner'
+  cases hinner'
+  obtain ⟨_, inner', hinner', hbt⟩ := runVertexOriented_some hres
+  rw [hinner] at hinner'
+  cases hinner'
+  have hp := SearchTree.backtrack_sound hbt
+  have ho : c.inst.keyV (originBranch c source e1).edge = e1.dst := inst_keyV_fwd hfwd h1
+  have hd : c.inst.termV (destBranch tgt e2 last.state).edge = e2.src := inst_termV_fwd hfwd h2
+  refine ⟨_, inner, last, originBranch c source e1, destBranch tgt e2 last.state,
+    runVertex_eq hres, by rw [hinner]; rfl, htrees, hiters, hlast, hroutes,
+    rfl, rfl, zero_eq, zero_eq, rfl, rfl, rfl, zero_eq, zero_eq, rfl,
+    wrap_chain hrc hnil _ _ ho hd, ?_, wrap_nodup hinv hp _ _ ho hd hne⟩
+  intro b hb
+  rw [List.cons_append, List.mem_cons, List.mem_append, List.mem_singleton] at hb
+  rcases hb with rfl | hb | rfl
+  · exact inst_termV_fwd hfwd h1
+  · exact (hrc.term_eq b hb).1
+  · exact hd
+
+/-- **adjacent case, full detail** (`e1.dst = e2.src`): one route `[b1, b2]`, `b1` the origin edge
+traversed for real from the initial state without previous edge, `b2` the destination edge traversed
+for real from `b1`'s state with the origin edge as previous edge; both costs strictly positive; the
+two edges chain and are distinct. -/
+theorem runEdge_adjacent_walk (c : Config α) (hfwd : c.reverse = false)
+    (source tgt : Nat) (sched : List Nat) (r : AlgResult α) (e1 e2 : EdgeRec α)
+    (h1 : c.edges[source]? = some e1) (h2 : c.edges[tgt]? = some e2) (hne : source ≠ tgt)
+    (hadj' : e1.dst = e2.src) (h : c.runEdge source (some tgt) sched = .ok r) :
+    ∃ b1 b2 : Branch α, r.routes = [[b1, b2]] ∧ r.iterations = 1 ∧
+      r.trees = [upd (upd (fun _ => none) e2.dst b2) e1.dst b1] ∧
+      b1.edge = source ∧ b1.terminal = e1.src ∧ b2.edge = tgt ∧ b2.terminal = e2.src ∧
+      c.inst.trav source none (initialState c.feats) = .ok (b1.access, b1.traversal, b1.state) ∧
+      c.inst.trav tgt (some source) b1.state = .ok (b2.access, b2.traversal, b2.state) ∧
+      0 < b1.access + b1.traversal ∧ 0 < b2.access + b2.traversal ∧
+      c.inst.keyV b1.edge = c.inst.termV b2.edge ∧
+      c.inst.termV b1.edge = b1.terminal ∧ c.inst.termV b2.edge = b2.terminal := by
+  obtain ⟨ac1, tc1, st1, ac2, tc2, st2, ht1, ht2, hroutes, htrees, hiters⟩ :=
+    runEdge_adjacent c source tgt sched r e1 e2 h1 h2 hne hadj' h
+  have hc : ({ c with reverse := false } : Config α) = c := by
+    cases c; simp only at hfwd; subst hfwd; rfl
+  rw [hc] at ht1 ht2
+  refine ⟨_, _, hroutes, hiters, htrees, rfl, rfl, rfl, rfl, ht1, ht2,
+    edgeTraversal_total_pos c _ _ _ _ _ _ ht1, edgeTraversal_total_pos c _ _ _ _ _ _ ht2, ?_, ?_, ?_⟩
+  · show c.inst.keyV source = c.inst.termV tgt
+    rw [inst_keyV_fwd hfwd h1, inst_termV_fwd hfwd h2]; exact hadj'
+  · exact inst_termV_fwd hfwd h1
+  · exact inst_termV_fwd hfwd h2
+
+/-- **`edge_oriented_route_walk`** (C01, `search_algorithm::run_edge_oriented`, forward direction),
+both cases at once: for distinct origin and destination edges a successful run returns exactly one
+route; it has at least two elements, the first carries the origin edge, the last the destination
+edge, consecutive edges chain in graph orientation (head of one = tail of the next), every
+element's `terminal` is the tail of its edge, and no edge id occurs twice (self loops included). -/
+theorem edge_oriented_route_walk (c : Config α) (hadj : c.AdjConsistent) (hfwd : c.reverse = false)
+    (source tgt : Nat) (sched : List Nat) (r : AlgResult α) (hne : source ≠ tgt)
+    (h : c.runEdge source (some tgt) sched = .ok r) :
+    ∃ route, r.routes = [route] ∧ 2 ≤ route.length ∧
+      (∃ b, route.head? = some b ∧ b.edge = source) ∧
+      (∃ b, route.getLast? = some b ∧ b.edge = tgt) ∧
+      (∀ i (hi : i + 1 < route.length),
+        c.inst.keyV route[i].edge = c.inst.termV route[i + 1].edge) ∧
+      (∀ b ∈ route, c.inst.termV b.edge = b.terminal) ∧
+      (route.map (·.edge)).Nodup := by
+  cases h1 : c.edges[source]? with
+  | none => rw [runEdge_bad_origin c source _ sched h1] at h; cases h
+  | some e1 =>
+    cases h2 : c.edges[tgt]? with
+    | none =>
+      unfold Config.runEdge at h
+      simp only [h1, h2] at h
+      cases h
+    | some e2 =>
+      by_cases hadj' : e1.dst = e2.src
+      · obtain ⟨b1, b2, hroutes, _, _, hb1, _, hb2, _, _, _, _, _, hch, ht1, ht2⟩ :=
+          runEdge_adjacent_walk c hfwd source tgt sched r e1 e2 h1 h2 hne hadj' h
+        refine ⟨[b1, b2], hroutes, by simp, ⟨b1, rfl, hb1⟩, ⟨b2, rfl, hb2⟩, ?_, ?_, ?_⟩
+        · intro i hi
+          have hi0 : i = 0 := by simp only [List.length_cons, List.length_nil] at hi; omega
+          subst hi0
+          exact hch
+        · intro b hb
+          simp only [List.mem_cons, List.not_mem_nil, or_false] at hb
+          rcases hb with rfl | rfl
+          · exact ht1
+          · exact ht2
+        · simp only [List.map_cons, List.map_nil, hb1, hb2]
+          simp [hne]
+      · obtain ⟨r', inner, last, origin, dest, _, _, _, _, hlast, hroutes, ho, _, _, _, _, hd,
+          _, _, _, _, hch, hterm, hnd⟩ :=
+          runEdge_nonadjacent_walk c hadj hfwd source tgt sched r e1 e2 h1 h2 hne hadj' h
+        have hinner : inner ≠ [] := by
+          intro h0; rw [h0] at hlast; cases hlast
+        refine ⟨origin :: inner ++ [dest], hroutes, ?_, ⟨origin, rfl, ho⟩, ⟨dest, ?_, hd⟩,
+          List.isChain_iff_getElem.1 hch, hterm, hnd⟩
+        · have : 0 < inner.length := List.length_pos_iff.2 hinner
+          simp only [List.cons_append, List.length_cons, List.length_append, List.length_nil]
+          omega
+        · rw [List.getLast?_append]
+          rfl
+
+/-- **destination-less edge-oriented search**: the (single) returned tree is the inner tree of the
+vertex-oriented search from the origin edge's head `e1.dst`, with the origin element inserted under
+`e1.dst` — always inserted, because the inner search never gives its own source an entry; every
+other entry is the inner one, unchanged; no route; iterations are the inner ones + 1 -/
+theorem runEdge_none_tree (c : Config α) (hadj : c.AdjConsistent) (source : Nat)
+    (sched : List Nat) (r : AlgResult α) (e1 : EdgeRec α) (h1 : c.edges[source]? = some e1)
+    (h : c.runEdge source none sched = .ok r) :
+    ∃ (r' : AlgResult α) (innerTree tree : Nat → Option (Branch α)),
+      c.runVertex e1.dst none sched = .ok r' ∧ r'.trees = [innerTree] ∧ r'.routes = [] ∧
+      r.routes = [] ∧ r.iterations = r'.iterations + 1 ∧ r.trees = [tree] ∧
+      innerTree e1.dst = none ∧
+      tree = upd innerTree e1.dst (originBranch c source e1) ∧
+      tree e1.dst = some (originBranch c source e1) ∧
+      (∀ v, v ≠ e1.dst → tree v = innerTree v) := by
+  obtain ⟨res, hres, hnone, hroutes, hiters, htrees⟩ := runEdge_none c source sched r e1 h1 h
+  obtain ⟨_, hinv⟩ := SearchTree.runVertexOriented_tree (c.inst_wf hadj) e1.dst sched res hres
+  have hsrc : res.final.sol e1.dst = none := hinv.sol_source
+  rw [hsrc] at htrees
+  simp only at htrees
+  refine ⟨_, res.final.sol, upd res.final.sol e1.dst (originBranch c source e1),
+    runVertex_eq hres, rfl, by rw [hnone]; rfl, hroutes, hiters, htrees, hsrc, rfl,
+    SearchTree.upd_same _ _ _, fun v hv => SearchTree.upd_other _ _ _ hv⟩
+
+/-- in a forward search every entry of that tree (the origin entry included) records an edge
+joining the entry's `terminal` to the entry's own vertex -/
+theorem runEdge_none_tree_joins (c : Config α) (hadj : c.AdjConsistent) (hfwd : c.reverse = false)
+    (source : Nat) (sched : List Nat) (r : AlgResult α)
+    (h : c.runEdge source none sched = .ok r) :
+    ∀ tree ∈ r.trees, ∀ v b, tree v = some b →
+      c.inst.keyV b.edge = v ∧ c.inst.termV b.edge = b.terminal := by
+  cases h1 : c.edges[source]? with
+  | none => rw [runEdge_bad_origin c source _ sched h1] at h; cases h
+  | some e1 =>
+    obtain ⟨res, hres, _, _, _, htrees⟩ := runEdge_none c source sched r e1 h1 h
+    obtain ⟨_, hinv⟩ := SearchTree.runVertexOriented_tree (c.inst_wf hadj) e1.dst sched res hres
+    rw [hinv.sol_source] at htrees
+    simp only at htrees
+    intro tree htree v b hb
+    rw [htrees, List.mem_singleton] at htree
+    subst htree
+    by_cases hv : v = e1.dst
+    · subst hv
+      rw [SearchTree.upd_same] at hb
+      cases hb
+      exact ⟨inst_keyV_fwd hfwd h1, inst_termV_fwd hfwd h1⟩
+    · rw [SearchTree.upd_other _ _ _ hv] at hb
+      obtain ⟨hk, ht, _⟩ := hinv.entry v b hb
+      exact ⟨hk, ht⟩
+
+/-- every *inner* element of an edge-oriented route (everything but the origin and destination
+elements) is a frontier-accepted, really traversed tree entry of the inner search -/
+theorem runEdge_inner_valid (c : Config α) (source tgt : Nat) (sched : List Nat)
+    (r : AlgResult α) (e1 e2 : EdgeRec α) (h1 : c.edges[source]? = some e1)
+    (h2 : c.edges[tgt]? = some e2) (hne : source ≠ tgt) (hnadj : e1.dst ≠ e2.src)
+    (h : c.runEdge source (some tgt) sched = .ok r) :
+    (∀ tree ∈ r.trees, ∀ v b, tree v = some b → EntryOK c.inst b) ∧
+    ∃ (inner : List (Branch α)) (last : Branch α),
+      r.routes = [originBranch c source e1 :: inner ++ [destBranch tgt e2 last.state]] ∧
+      ∀ b ∈ inner, EntryOK c.inst b := by
+  obtain ⟨res, inner, last, hres, hinner, _, htrees, _, hroutes⟩ :=
+    runEdge_nonadjacent c source tgt sched r e1 e2 h1 h2 hne hnadj h
+  obtain ⟨hv1, hv2⟩ := runVertexOriented_validInv c.inst e1.dst (some e2.src) sched res hres
+  refine ⟨?_, inner, last, hroutes, hv2 inner hinner⟩
+  intro tree htree v b hb
+  rw [htrees, List.mem_singleton] at htree
+  subst htree
+  exact hv1 v b hb
+
 end SearchRoute
 end Compass
